@@ -27,9 +27,9 @@ Record Ops := {
   f32_cvtt_i32 : F32 -> Z; f32_of_i32 : Z -> F32;
   f32_to_int : ik -> F32 -> Z; f64_to_int : ik -> F64 -> Z; f32_of_int : ik -> Z -> F32; f64_of_int : ik -> Z -> F64;
   f32_to_f64 : F32 -> F64; f64_to_f32 : F64 -> F32;
-  i_1 : ik -> iop1 -> Z -> res Z; i_2 : ik -> iop2 -> Z -> Z -> res Z; i_checked : ik -> iop2 -> Z -> Z -> option Z;
-  i_cmp : icmp -> Z -> Z -> bool; i_cast : ik -> ik -> Z -> Z; i_shl : ik -> ik -> Z -> Z -> res Z; i_shr : ik -> ik -> Z -> Z -> res Z;
-  i_mixed : ik -> string -> Z -> Z -> res Z; i_mixed_checked : ik -> string -> Z -> Z -> option Z; i_isneg : ik -> Z -> bool; i_try : ik -> ik -> Z -> option Z
+  i_1 : ik -> iop1 -> Z -> option Z; i_2 : ik -> iop2 -> Z -> Z -> option Z; i_checked : ik -> iop2 -> Z -> Z -> option Z;
+  i_cmp : icmp -> Z -> Z -> bool; i_cast : ik -> ik -> Z -> Z; i_shl : ik -> ik -> Z -> Z -> option Z; i_shr : ik -> ik -> Z -> Z -> option Z;
+  i_mixed : ik -> string -> Z -> Z -> option Z; i_mixed_checked : ik -> string -> Z -> Z -> option Z; i_isneg : ik -> Z -> bool; i_try : ik -> ik -> Z -> option Z
 }.
 
 
@@ -49,7 +49,7 @@ Inductive prim :=
 | PCastII (a b:ik) | PCastFI (a:fk) (b:ik) | PCastIF (a:ik) (b:fk) | PCastFF (a b:fk) | PCastBI (b:ik) | PTryII (a b:ik)
 | PFromBits (k:fk) | PToBits (k:fk)
 | PMk | PProj (i:nat) | PUpd (i:nat) | PIdx | PLen | PSplat (n:nat)
-| PSome | PNone | PUnwrap
+| PSome | PNone | PUnwrap | PSelect
 | PLanewise2 (o:fop2) | PLanewise1 (o:fop1) | PLanewise3 (o:fop3) | PLanewiseCmp (c:fcmp) | PCmpUnord                  (* _mm_add_ps etc: lane-wise f32 ops on 4-lane registers *)
 | PShuffle (imm:Z) | PMoveHL | PAddSS | PCvtSS | PSet1 | PMoveMask | PCvttEpi32 | PCvtEpi32Ps | PCmpLtEpi32 | PTake (n:nat) | PPad (n:nat).
 
@@ -86,6 +86,16 @@ Definition sgn (x : F32 OP) : Z := if f32_pred OP FSignBit x then 1 else 0.
 Definition i32_of_u32 (z:Z) : Z := if Z.ltb z 2147483648 then z else z - 4294967296.
 Definition u32_of_i32 (z:Z) : Z := if Z.ltb z 0 then z + 4294967296 else z.
 
+(* value-level choice: both alternatives are already evaluated (the translator emits PSelect only for side-effect free,
+   total alternatives), so an undetermined condition stays inside the scalar instead of duplicating the continuation *)
+Fixpoint sel_val (c:bool) (a b:val) {struct a} : val :=
+  match a, b with
+  | VF32 x, VF32 y => VF32 (if c then x else y) | VF64 x, VF64 y => VF64 (if c then x else y)
+  | VI k x, VI _ y => VI k (if c then x else y) | VB x, VB y => VB (if c then x else y)
+  | VT la, VT lb => VT ((fix go (la lb : list val) {struct la} : list val := match la, lb with x :: la', y :: lb' => sel_val c x y :: go la' lb' | _, _ => if c then la else lb end) la lb)
+  | _, _ => if c then a else b end.
+(* integer primitives either return a value or panic (None) *)
+Definition ores {A} (o : option A) : res A := match o with Some a => Ok a | None => Panic end.
 Definition eval_prim (p:prim) (args:list val) : res val :=
   match p, args with
   | PF1 K32 o, [VF32 a] => Ok (VF32 (f32_1 OP o a)) | PF1 K64 o, [VF64 a] => Ok (VF64 (f64_1 OP o a))
@@ -93,12 +103,12 @@ Definition eval_prim (p:prim) (args:list val) : res val :=
   | PF3 K32 o, [VF32 a; VF32 b; VF32 c] => Ok (VF32 (f32_3 OP o a b c)) | PF3 K64 o, [VF64 a; VF64 b; VF64 c] => Ok (VF64 (f64_3 OP o a b c))
   | PFCmp K32 c, [VF32 a; VF32 b] => Ok (VB (f32_cmp OP c a b)) | PFCmp K64 c, [VF64 a; VF64 b] => Ok (VB (f64_cmp OP c a b))
   | PFPred K32 q, [VF32 a] => Ok (VB (f32_pred OP q a)) | PFPred K64 q, [VF64 a] => Ok (VB (f64_pred OP q a))
-  | PI1 k o, [VI _ a] => z <- i_1 OP k o a ;; Ok (VI k z)
-  | PI2 k o, [VI _ a; VI _ b] => z <- i_2 OP k o a b ;; Ok (VI (match o with IAbsDiff => match k with I8 => U8 | I16 => U16 | I32 => U32 | I64 => U64 | x => x end | _ => k end) z)
+  | PI1 k o, [VI _ a] => z <- ores (i_1 OP k o a) ;; Ok (VI k z)
+  | PI2 k o, [VI _ a; VI _ b] => z <- ores (i_2 OP k o a b) ;; Ok (VI (match o with IAbsDiff => match k with I8 => U8 | I16 => U16 | I32 => U32 | I64 => U64 | x => x end | _ => k end) z)
   | PIChecked k o, [VI _ a; VI _ b] => Ok (VOpt (match i_checked OP k o a b with Some z => Some (VI k z) | None => None end))
   | PICmp c, [VI _ a; VI _ b] => Ok (VB (i_cmp OP c a b))
-  | PIShl k kc, [VI _ a; VI _ b] => z <- i_shl OP k kc a b ;; Ok (VI k z) | PIShr k kc, [VI _ a; VI _ b] => z <- i_shr OP k kc a b ;; Ok (VI k z)
-  | PIMixed k nm, [VI _ a; VI _ b] => z <- i_mixed OP k nm a b ;; Ok (VI k z)
+  | PIShl k kc, [VI _ a; VI _ b] => z <- ores (i_shl OP k kc a b) ;; Ok (VI k z) | PIShr k kc, [VI _ a; VI _ b] => z <- ores (i_shr OP k kc a b) ;; Ok (VI k z)
+  | PIMixed k nm, [VI _ a; VI _ b] => z <- ores (i_mixed OP k nm a b) ;; Ok (VI k z)
   | PIIsNeg k, [VI _ a] => Ok (VB (i_isneg OP k a))
   | PIMixedChecked k nm, [VI _ a; VI _ b] => Ok (VOpt (match i_mixed_checked OP k nm a b with Some z => Some (VI k z) | None => None end))
   | PBNot, [VB a] => Ok (VB (negb a)) | PBAnd, [VB a; VB b] => Ok (VB (andb a b)) | PBOr, [VB a; VB b] => Ok (VB (orb a b)) | PBXor, [VB a; VB b] => Ok (VB (xorb a b)) | PBEq, [VB a; VB b] => Ok (VB (Bool.eqb a b))
@@ -122,6 +132,7 @@ Definition eval_prim (p:prim) (args:list val) : res val :=
   | PIdx, [VT l; VI _ z] => if Z.ltb z 0 then Panic else match nth_error l (Z.to_nat z) with Some v => Ok v | None => Panic end
   | PLen, [VT l] => Ok (VI USize (Z.of_nat (List.length l)))
   | PSplat n, [v] => Ok (VT (repeat v n))
+  | PSelect, [VB c; a; b] => Ok (sel_val c a b)
   | PSome, [v] => Ok (VOpt (Some v)) | PNone, [] => Ok (VOpt None) | PUnwrap, [VOpt (Some v)] => Ok v | PUnwrap, [VOpt None] => Panic
   | PLanewise2 o, [a;b] => x <- lanes4 a ;; y <- lanes4 b ;; let '(a0,a1,a2,a3) := x in let '(b0,b1,b2,b3) := y in Ok (mk4 (f32_2 OP o a0 b0) (f32_2 OP o a1 b1) (f32_2 OP o a2 b2) (f32_2 OP o a3 b3))
   | PLanewise1 o, [a] => x <- lanes4 a ;; let '(a0,a1,a2,a3) := x in Ok (mk4 (f32_1 OP o a0) (f32_1 OP o a1) (f32_1 OP o a2) (f32_1 OP o a3))
